@@ -77,3 +77,16 @@ claim("C10",
       "That every value-dependent nesting passes through a trace item is not decided.",
       "Trusted: rustc MIR; callee summaries computed over non-error return paths; the outer state-machine loop of run is not a per-element loop.",
       "DESIGN.md §2 C10")
+claim("C03",
+      "ownership-graph obligations + per-variant path walk of every GcTrace impl with origin attribution; type-graph and who-may-X closure",
+      "Decides the tracing contract and rooting discipline the collector's exactness rests on, not the collection algorithm: (R1) for every "
+      "heap type, every field that owns a Gc handle is forwarded to the tracer by exactly one call site on every path of its variant (a "
+      "missing trace leaks cyclic garbage, a double trace lets a live root be reclaimed; per-element loops over containers are recognised); "
+      "(R2) no heap type owns a GcView or reaches a handle through Rc/Arc/&; (R3) handle and collector types are crate-private, GcBox is "
+      "built only by the allocator, its counters are written only in the gc module, all GcTrace impls are local; (R4) the sweep resets "
+      "visits and mark of survivors and only the two visitors and gc() write them; (R5) collections start only between evaluator steps, "
+      "while loading the stdlib or from the public API. Schedule-independence of outcomes and the count/mark/sweep algorithm are behavioural "
+      "and not decided.",
+      "Trusted: rustc MIR and type information; std Weak/Rc semantics. With R1-R3 a collection can differ from 'never collect' only through "
+      "the algorithm in GcContext::gc, which stays with the repository's gc unit tests.",
+      "DESIGN.md §2 C03")
